@@ -427,6 +427,10 @@ def _fuzz_one(exe, target, flavour, seconds, seed, workdir, use_seeds):
     corpus = os.path.join(workdir, "%s-%s-%s" % (target, flavour, "seeded" if use_seeds else "empty"))
     os.makedirs(corpus, exist_ok=True)
     env = dict(os.environ)
+    if flavour == "asserts":
+        # open known finding manifest-contents-asserts: excluded by construction in the assertion build, exhibited by the
+        # separate "asserts-manifest" campaign
+        env["VF_FUZZ_NO_FRAMED_MANIFEST"] = "1"
     env["ASAN_OPTIONS"] = FUZZ_ENV_ASAN
     env["UBSAN_OPTIONS"] = "print_stacktrace=1:halt_on_error=1"
     env["VF_FUZZ_TARGET"] = target
@@ -442,6 +446,16 @@ def _fuzz_one(exe, target, flavour, seconds, seed, workdir, use_seeds):
            "-max_len=%d" % max_len, "-artifact_prefix=%s-" % corpus, "-print_final_stats=1",
            "-dict=%s" % os.path.join(VERIF, "corpus", "C18", "dict.txt"), corpus]
     return subprocess.Popen(cmd, stdout=open(corpus + ".log", "w"), stderr=subprocess.STDOUT, env=env), corpus
+
+
+def _is_manifest_contents_assert(out):
+    """Signature of the open known finding manifest-contents-asserts: an assert() abort (no sanitizer report) whose stack runs
+    through ldb_open or ldb_repair, i.e. recovery of a MANIFEST or log.  The caller also requires the same input to pass on the NDEBUG build."""
+    if "Assertion `" not in out or "failed." not in out:
+        return False
+    if "ERROR: AddressSanitizer" in out or "runtime error" in out or "SEMANTIC" in out:
+        return False
+    return " in ldb_open " in out or " in ldb_repair " in out
 
 
 def fuzz_replay(exe, target, path, timeout=90):
@@ -483,10 +497,12 @@ def fuzz_run(prop, spec, tier, seed):
         jobs.append((exe_nd, t, "nd", True))
         jobs.append((exe_nd, t, "nd", False))
         jobs.append((exe_as, t, "asserts", True))
+    jobs.append((exe_as, "edit", "asserts-manifest", True))
     per_wave = runner.JOBS
     waves = [jobs[i:i + per_wave] for i in range(0, len(jobs), per_wave)]
     secs = max(5, budget / len(waves))
     total_execs, total_gate, distinct_gate = 0, 0, 0
+    excluded_known, known_seen = 0, 0
     per_target = {}
     for wave in waves:
         procs = []
@@ -504,6 +520,7 @@ def fuzz_run(prop, spec, tier, seed):
                 st = json.load(open(corpus + ".stats"))
             except (OSError, ValueError):
                 st = {"execs": 0, "passed_gate": 0, "distinct_passed_gate": 0}
+            excluded_known += st.get("excluded_known", 0)
             total_execs += st["execs"]
             total_gate += st["passed_gate"]
             distinct_gate += st["distinct_passed_gate"]
@@ -517,6 +534,10 @@ def fuzz_run(prop, spec, tier, seed):
                     rc, out = fuzz_replay(exe, t, art)
                     if rc == 0:
                         notes.append("%s/%s: artifact %s does not reproduce standalone (dropped)" % (t, fl, kind))
+                        continue
+                    if fl.startswith("asserts") and _is_manifest_contents_assert(out) and fuzz_replay(exe_nd, t, art)[0] == 0 \
+                            and any(k["id"] == "manifest-contents-asserts" and k.get("status", "open") == "open" for k in runner.known_findings()):
+                        known_seen += 1
                         continue
                     h = hashlib.sha1(open(art, "rb").read()).hexdigest()[:12]
                     dst = os.path.join(runner.REPLAYS, "C18-%s-%s.bin" % (t, h))
@@ -546,8 +567,10 @@ def fuzz_run(prop, spec, tier, seed):
             for f in fs:
                 samples.append("%s: %s" % (t, open(os.path.join(c, f), "rb").read()[:60].hex()))
     shutil.rmtree(workdir, ignore_errors=True)
-    print_known(prop, {})
+    print_known(prop, {"known.manifest-contents-asserts": known_seen})
     coverage = {
+        "excluded_by_construction": {"framed_manifest_paths_skipped_in_assertion_build (known finding manifest-contents-asserts)": int(excluded_known)},
+        "known_finding_observed": int(known_seen),
         "evaluations": int(total_execs),
         "distinct_nontrivial": int(distinct_gate),
         "rule": "coverage-guided libFuzzer campaigns, one per decoder entry point (block iterator with a derived call sequence, filter reader, Snappy decoder with differential reference decode, version-edit import, "
